@@ -201,7 +201,8 @@ def _length_kind(n, x):
 # ------------------------------------------------------------------------------------------- R3
 def r3(prog, ev, rep, fn):
     rep.rule("C10-R3", "count: node list -> its length, single node -> 1, empty result -> 0", floor=3)
-    t = expand_closures(ev, ev.summary(fn))
+    from vflib.terms import distribute_call
+    t = distribute_call(expand_closures(ev, ev.summary(fn)))
     where = prog.loc_of(fn)
     if t.k != "match":
         rep.unrecognised("C10-R3", "count", where, "not a match on the argument's data"); return
